@@ -103,7 +103,7 @@ func Main(args []string) int {
 	}
 	defer cleanup()
 
-	nFam := r.N(360, 6000)
+	nFam := r.N(900, 6000)
 	perSpec := 60
 	opts := gen.Options{Generator: gen.GenerateOptions{Features: genlab.Features("paths/server")}}
 	fams := make([]*family, nFam)
